@@ -329,6 +329,8 @@ class CFG:
                 if fr["kind"] == "try" and fr["phase"] == "body":
                     for h, _ in fr["handlers"]:
                         for hn in handler_names(h):
+                            if hn.startswith("_InlineReturn__"):
+                                continue     # synthetic jump target of an inlined helper: reached only by its own explicit raises
                             if hn in ("BaseException", "Exception"):
                                 if self.broad_handlers and has_call:
                                     out.add("Exception")
